@@ -225,6 +225,21 @@ H("c17_call_matchers", "c17_matchers::c17_call_matchers", ["C17"],
   assumptions=["native replay runs the real rule end to end (darklua_core::process on in-memory resources) on `[local NAME = f] PREFIX(1)` and looks for the call in the output",
                "what replaces a matched call (argument preservation, select handling) and inject_global_value are outside the claim"])
 
+INJECT_KINDS = [("identifier", "the identifier `NAME`"), ("other_identifier", "another identifier")]
+# The other shapes written in harness/src/c17_inject.rs are not registered: `_G.NAME`, `_G.other`, `x.NAME`, `_G["NAME"]`, `x["NAME"]`,
+# `_G["other"]` (overwriting a Field/Index node: CBMC explores the drop glue behind the Box, out of memory at 16 GB after 400-580 s each)
+# and `NAME` in prefix position (process_prefix_expression overwrites a `Prefix` through `&mut`: out of memory at 16 GB at unwind 12 and 5).
+# Prefix position is where the rule does not consult the scope tracker at all (DESIGN §7, observations).
+for kind, what in INJECT_KINDS:
+    H("c17_inject_%s" % kind, "c17_inject::c17_inject_%s" % kind, ["C17"],
+      ["inject_value::ValueInjection::process_expression" if "prefix" not in kind else "inject_value::ValueInjection::process_prefix_expression"],
+      "one node step of inject_global_value on %s, with NAME a local or not and `_G` a local or not (4 control scenarios, constants of the call site)" % what,
+      mode="lean", timeout_s=900, mem_gb=16, replay="inject_%s" % kind,
+      stubs=["IdentifierTracker::is_identifier_used -> the scenario's answer for NAME and for `_G`",
+             "<Expression as Clone>::clone -> a marker identifier (the only clone in the step is the injected value)"],
+      assumptions=["NAME is the fixed name `dev`, the injected value a marker; which value kinds the rule accepts and how the scope tracker is fed by ScopeVisitor are outside the claim",
+                   "native replay runs the real rule end to end (darklua_core::process on in-memory resources) on `[local dev = f] [local _G = f] return NODE`"])
+
 # ---------------------------------------------------------------------------------------- C18 location
 # c18_comment_location_* (the real AppendTextComment::process on an empty block, text() and ShiftTokenLine stubbed) are written in
 # harness/src/c18_location.rs but not registered: 107-146 k symex steps, yet the SAT conversion runs out of 16 GB even for a single
